@@ -397,6 +397,7 @@ def local_assortativity_wu_sign(W):
     '''
     n = len(W)
 
+    W = W.copy()
     np.fill_diagonal(W, 0)
     r_pos = assortativity_wei(W * (W > 0))
     r_neg = assortativity_wei(W * (W < 0))
